@@ -134,13 +134,15 @@ def run_ledger(ctx, lk, entries, errors, options):
         attr = RENAMES['commodities'].get(col['name'], col['name'])
         column_oracle(ctx, conn, 'commodities', col['name'], [getattr(c, attr) for c in comm.values()], lk)
     # metadata look-ups
-    keys = ['category', 'ref', 'when', 'flagged', 'note', 'filename', 'lineno', 'nosuch']
+    keys = ['category', 'ref', 'when', 'flagged', 'note', 'filename', 'lineno', 'nosuch', 'invoiceNo', 'invoiceno', 'lotTag', 'lottag', 'INVOICENO']
     for key in keys:
         column_oracle(ctx, conn, 'postings', "meta('%s')" % key, [(r['meta'] or {}).get(key) for r in exp_p], lk)
         column_oracle(ctx, conn, 'postings', "entry_meta('%s')" % key, [r['entry'].meta.get(key) for r in exp_p], lk)
         column_oracle(ctx, conn, 'postings', "any_meta('%s')" % key,
                       [(None if r['meta'] is None else r['meta'].get(key, r['entry'].meta.get(key))) for r in exp_p], lk)
         column_oracle(ctx, conn, 'entries', "meta['%s']" % key, [r['meta'].get(key) for r in exp_e], lk)
+        column_oracle(ctx, conn, 'postings', "meta['%s']" % key, [(None if r['meta'] is None else r['meta'].get(key)) for r in exp_p], lk)
+        column_oracle(ctx, conn, 'postings', "entry.meta['%s']" % key, [r['entry'].meta.get(key) for r in exp_p], lk)
     for key in ('owner', 'limit', 'nosuch'):
         column_oracle(ctx, conn, 'postings', "open_meta(account, '%s')" % key,
                       [(oc[r['account']][0].meta.get(key) if r['account'] in oc and oc[r['account']][0] else None) for r in exp_p], lk)
@@ -219,7 +221,10 @@ FIXED_TAIL = '''
   Income:Gains
 
 2030-01-07 * "fixed" "received for free"
+  invoiceNo: "A-17"
+  invoiceno: "lower"
   Assets:Broker:ACME  3 ACME {0.00 USD, "gift"}
+    lotTag: "Free"
   Income:Gains  0.00 USD
 '''
 
